@@ -21,6 +21,7 @@ from decimal import Decimal
 
 import runner
 import wsmodel
+import xmlvar
 from common import rng_for, sanitize_sig
 from wsmodel import ALPHABET, WsModel, Model
 
@@ -576,7 +577,18 @@ class Session:
         f = self.found
         model = self.model
         if kind in ("add", "replace"):
-            r = rq("POST", "/definitions/%s" % kind, {"content": b64(m.xml)})
+            content = m.xml
+            self.n_defs = getattr(self, "n_defs", 0) + 1
+            if self.n_defs % 3 == 0 and m.builds:
+                # the same model in another XML spelling (lib/xmlvar.py), seeded by the request count of this session
+                import random as _r
+
+                try:
+                    content = xmlvar.vary(m.xml, _r.Random(self.n_defs * 7919 + len(m.xml)))[0]
+                    f.bump("definitions-in-a-varied-xml-spelling")
+                except Exception:  # noqa: BLE001  (a model text the variant writer cannot read is sent as it is)
+                    content = m.xml
+            r = rq("POST", "/definitions/%s" % kind, {"content": b64(content)})
         elif kind == "remove":
             r = rq("POST", "/definitions/remove", {"namespace": key[0], "name": key[1]})
         else:
@@ -1292,6 +1304,7 @@ def run(rep, tier, seed):
     rep.extra["echo_requests_by_endpoint_and_class"] = {k[5:]: v for k, v in sorted(counters.items()) if k.startswith("echo:")}
     rep.extra["malformed_requests_by_class"] = {k[10:]: v for k, v in sorted(counters.items()) if k.startswith("malformed:")}
     rep.extra["concurrent_clients"] = {k[11:]: v for k, v in sorted(counters.items()) if k.startswith("concurrent:")}
+    rep.extra["definitions_sent_in_a_varied_xml_spelling"] = counters.get("definitions-in-a-varied-xml-spelling", 0)
     rep.extra["oversize_bodies_closed_before_response"] = counters.get("oversize-closed-early", 0)
     rep.extra["services"] = len(ready)
     rep.extra["workers_per_service"] = ready[0]["workers"]
